@@ -325,6 +325,10 @@ def dispatch(
             # Let extract_selector consume its own tokens
             # Note: must materialize generator immediately so tokens are consumed now
             peers = list(extract_selector(tokeniser, reactor, service))
+            if not peers:
+                # a selector which matches no peer is not "no selector": with an empty list the
+                # callers fall back to every peer, and `peer 192.0.2.9 announce ...` reached them all
+                raise NoMatchingPeers(f'no peer matches the selector starting at {peeked}')
             node = node[SELECTOR_KEY]
             # Don't consume again - extract_selector already did
             if callable(node):
